@@ -135,11 +135,22 @@ func ext۰bytes۰IndexByte(fr *frame, args []value) value {
 	return -1
 }
 
+// symFBits is a float64 whose bit pattern is symbolic. It can be stored, copied and
+// turned back into bits; any arithmetic or comparison on it is outside the engine
+// (no float theory) and surfaces as an engine error.
+type symFBits struct{ bits value }
+
 func ext۰math۰Float64frombits(fr *frame, args []value) value {
+	if isSym(args[0]) {
+		return symFBits{args[0]}
+	}
 	return math.Float64frombits(args[0].(uint64))
 }
 
 func ext۰math۰Float64bits(fr *frame, args []value) value {
+	if sf, ok := args[0].(symFBits); ok {
+		return sf.bits
+	}
 	return math.Float64bits(args[0].(float64))
 }
 
@@ -309,6 +320,16 @@ func ext۰os۰Exit(fr *frame, args []value) value {
 }
 
 func ext۰unicode۰utf8۰DecodeRuneInString(fr *frame, args []value) value {
+	if ss, ok := args[0].(symStr); ok {
+		// same rule as ranging over such a string: a symbolic first byte is decided to be
+		// ASCII, anything else is outside the engine
+		it := &symStrIter{fr: fr, s: ss}
+		t := it.next()
+		if !t[0].(bool) {
+			return tuple{rune(utf8.RuneError), 0}
+		}
+		return tuple{t[2], it.i}
+	}
 	r, n := utf8.DecodeRuneInString(args[0].(string))
 	return tuple{r, n}
 }
